@@ -58,7 +58,7 @@ class HistogramWorld(World):
     def draw_config(self, rng):
         thorough = self.ctx.tier == "thorough"
         return {"n_steps": rng.randint(8, 25) if not thorough else rng.randint(15, 50),
-                "n_bits": rng.randint(1, 6), "faults": rng.random() < 0.8, "fault_rate": rng.choice([0.1, 0.2, 0.3]),
+                "n_bits": rng.randint(1, 6) if rng.random() < 0.85 else rng.randint(10, 13), "faults": rng.random() < 0.8, "fault_rate": rng.choice([0.1, 0.2, 0.3]),
                 "w_group": rng.choice([0.3, 1, 2]), "w_func": rng.choice([0.5, 1, 2]), "w_resample": rng.choice([0.5, 1, 2])}
 
     def __init__(self, ctx, config=None):
